@@ -575,8 +575,14 @@ def int_layout(mod, T, D, facts, convs):
                 neg = conv in 'di' and ctx.st.cons.entails_lt(u, 0)
                 exp = -u if neg else u
                 m = (u0 is not None and ctx.eq(u0, exp), d is not None and ctx.eq(d, ISO_BASE[conv]), neg, u0, d)
-            return (key, ok, None if ok else 'case {%s}: emitted %s, ISO C requires %s'
-                    % (', '.join(ctx.desc), show_segments(got), show_segments(want)), m)
+            if ok:
+                return (key, True, None, m)
+            cs = ctx.st.cons
+            val = 'value < 0' if cs.entails_lt(u, 0) else 'value == 0' if cs.entails_eq(u, 0) else \
+                'value > 0' if cs.entails_lt(0, u) else 'any value'
+            desc = [val] + [x for x in ctx.desc if not x.endswith('value < 0') and not x.endswith('value == 0')]
+            return (key, False, 'case {%s} (w width, p precision, q* number of digits): emitted %s, ISO C requires %s'
+                    % (', '.join(desc), show_segments(got), show_segments(want)), m)
         for ctx, (key, ok, detail, m) in enum_cases(sx, s, fn):
             cur = res.get(key)
             if cur is None or (cur[0] and not ok):
@@ -677,8 +683,11 @@ def str_layout(mod, T, D, facts, conv):
             want = clean_model(ctx, segs)
             got = norm_segments(sx, ctx, s.segs, strarg=base)
             ok = same_segments(ctx, got, want)
-            return (key, ok, None if ok else 'case {%s}: emitted %s, ISO C requires %s'
-                    % (', '.join(ctx.desc), show_segments(got), show_segments(want)))
+            note = ''
+            if conv == 'c' and not ok and not ctx.st.cons.entails_le(1, n):
+                note = ' (the character is NUL: its string length is 0, but %c must hand it to the callback like any other)'
+            return (key, ok, None if ok else 'case {%s}: emitted %s, ISO C requires %s%s'
+                    % (', '.join(ctx.desc), show_segments(got), show_segments(want), note))
         for ctx, (key, ok, detail) in enum_cases(sx, s, fn):
             cur = res.get(key)
             if cur is None or (cur[0] and not ok):
